@@ -72,8 +72,12 @@ class _TabulationCutoff(object):
       cutoff = (nr-1)*dr      
     elif cutoff and dr:
       # Set nr
-      nr = (cutoff/dr) + 1
-      nr = int(nr)
+      # cutoff is normally a whole multiple of dr, guard against cutoff/dr falling just below
+      # the whole number through floating point division (e.g. 0.3/0.1 = 2.9999999999999996).
+      n_steps = cutoff/dr
+      if abs(n_steps - round(n_steps)) <= 1e-9 * max(1.0, abs(n_steps)):
+        n_steps = round(n_steps)
+      nr = int(n_steps) + 1
     elif not dr is None:
       raise ConfigParserException("'{dr}' cannot be specified without either '{nr}' or '{cutoff}' in [Tabulation] section of potential definition.".format(**self._template_dict))
 
